@@ -107,9 +107,21 @@ pub fn near_semicomplete(rng: &mut Rng, order: usize, keep_size: bool) -> Dg {
 /// sparse ids from a wide range; shifted block (no vertex 0).
 pub fn random_vertex_set(rng: &mut Rng, k: usize, max_id: usize) -> BTreeSet<usize> {
     assert!(k >= 1, "vertex set must be non-empty");
-    match rng.below(4) {
-        0 => (0..k).collect(),
-        1 => {
+    match rng.below(9) {
+        8 => {
+            // huge ids: nothing may be sized or indexed by a vertex id
+            let mut s = BTreeSet::new();
+            while s.len() < k {
+                let _ = s.insert(match rng.below(3) {
+                    0 => (1usize << 40) + rng.below(50),
+                    1 => usize::MAX - rng.below(50),
+                    _ => rng.below(max_id.max(k + 1)),
+                });
+            }
+            s
+        }
+        0 | 4 => (0..k).collect(),
+        1 | 5 => {
             // 0..k+h with h holes
             let h = rng.range(1, 3);
             let mut ids: Vec<usize> = (0..k + h).collect();
@@ -117,7 +129,7 @@ pub fn random_vertex_set(rng: &mut Rng, k: usize, max_id: usize) -> BTreeSet<usi
             ids.truncate(k);
             ids.into_iter().collect()
         }
-        2 => {
+        2 | 6 => {
             let mut s = BTreeSet::new();
             let hi = max_id.max(k + 1);
             while s.len() < k {
@@ -188,4 +200,44 @@ pub fn fidelity_line(kind: &str, i: usize, verts: &[usize], arcs: &[(usize, usiz
             .chain(std::iter::once(u64::from(flag))),
     );
     format!("{i} {kind} {d:016x} {}", if model_ok { "model-ok" } else { "MODEL-MISMATCH" })
+}
+
+// ---------------------------------------------------------------- boundary seeds
+
+fn inv_mul(c: u64) -> u64 {
+    // modular inverse of an odd constant mod 2^64 (Newton iteration)
+    let mut x = c;
+    for _ in 0..6 {
+        x = x.wrapping_mul(2u64.wrapping_sub(c.wrapping_mul(x)));
+    }
+    x
+}
+
+fn un_xorshift(y: u64, s: u32) -> u64 {
+    let mut x = y;
+    let mut shift = s;
+    while shift < 64 {
+        x = y ^ (x >> s);
+        shift += s;
+    }
+    x
+}
+
+/// A seed for which the first `next_f64()` of a xoshiro256** generator that is
+/// seeded through SplitMix64 (the published algorithms, which graaf's
+/// `Xoshiro256StarStar::new` follows) is exactly `0.0`: the low 52 bits of the
+/// first output are zero, the high 12 bits are `k`. A boundary value of the
+/// seed space ("for every seed"); the lanes verify it against graaf's public
+/// PRNG before relying on it.
+pub fn seed_with_first_draw_zero(k: u64) -> u64 {
+    let out = (k & 0xFFF) << 52;
+    // xoshiro256**: out = rotl(s1 * 5, 7) * 9, s1 = second SplitMix64 output
+    let s1 = out.wrapping_mul(inv_mul(9)).rotate_right(7).wrapping_mul(inv_mul(5));
+    // SplitMix64 output function inverted
+    let mut s = un_xorshift(s1, 31);
+    s = s.wrapping_mul(inv_mul(0x94D0_49BB_1331_11EB));
+    s = un_xorshift(s, 27);
+    s = s.wrapping_mul(inv_mul(0xBF58_476D_1CE4_E5B9));
+    let state = un_xorshift(s, 30);
+    state.wrapping_sub(0x9E37_79B9_7F4A_7C15u64.wrapping_mul(2))
 }
